@@ -28,10 +28,10 @@ def check_into(ck, fn, with_out):
     sws = [s for s in allsw if s[1] == ("discr", ("arg", 1))]
     # the dispatching switch dominates every other one; later switches on the same discriminant are drop elaboration
     first = [s for s in sws if all(body.dominates(s[0], o[0]) for o in allsw)]
-    if not ck.ob("I-dispatch-on-result", key, len(first) == 1 and len(sws) == len(allsw) and set(first[0][2]) == {0, 1},
+    if not ck.ob("I-dispatch-on-result", key, len(first) == 1 and len(sws) == len(allsw) and set(mir.enum_arms(body, first[0])) == {0, 1},
                  "%s does not dispatch on the discriminant of its Result argument" % key):
         return
-    arms = first[0][2]
+    arms = mir.enum_arms(body, first[0])
     ok_b, err_b = mir.dominated(body, arms.get(0)), mir.dominated(body, arms.get(1))
     # Ok arm
     ok_calls = mir.calls_in(body, ok_b)
@@ -82,7 +82,9 @@ def check_from(ck, fn, with_val):
     ok = len(sws) == 1 and sws[0][1][0] == "discr" and sws[0][1][1][0] == "call" and sws[0][1][1][1] == NZ_NEW and sws[0][1][1][2][0] == ("arg", 1)
     if not ck.ob("F-dispatch-on-nonzero", key, ok, "%s does not dispatch on NonZeroI32::new(code)" % key):
         return
-    arms = sws[0][2]
+    arms = mir.enum_arms(body, sws[0])
+    if not ck.ob("F-dispatch-on-nonzero", key + "/arms", set(arms) == {0, 1}, "%s does not separate NonZeroI32::new(code) = None from Some" % key):
+        return
     none_b, some_b = mir.dominated(body, arms.get(0)), mir.dominated(body, arms.get(1))
     ai = [(i, t) for i, t in body.calls() if cp(t).endswith("::assume_init") or cp(t).endswith("assume_init_read")]
     if with_val:
@@ -143,22 +145,20 @@ def nonzero_argument(body, t, adts=None):
             else:
                 break
         defs = body.defs().get(loc, [])
-        sws = mir.discr_switches(body)
-        for (sb, so, targets, otherwise) in sws:
-            if so[0] == "bin" and so[1] == "Eq" and so[3] == ("const", 0, "i32"):
-                x = so[2]
-                false_b = mir.dominated(body, targets.get(0)) if 0 in targets else set()
-                true_b = mir.dominated(body, otherwise)
-                good = True
-                for d in defs:
-                    od = body._origin_def(d, 0)
-                    if od[0] == "const" and od[1] != 0 and d[0] in true_b:
-                        continue
-                    if od == x and d[0] in false_b:
-                        continue
-                    good = False
-                if good and defs:
-                    return True, "x if x != 0 else non-zero constant"
+        # every definition reaching the operand is a non-zero constant, or a value x assigned where a zero test on x has already
+        # taken its non-zero side (`if x == 0 {c} else {x}`, `if x != 0 {x} else {c}`, `match x { 0 => c, e => e }`, `Some(e) if e != 0`)
+        tests = mir.zero_tests(body)
+        good = bool(defs)
+        for d in defs:
+            od = body._origin_def(d, 0)
+            if od[0] == "const" and od[1] != 0:
+                continue
+            xs = mir.deepstrip(od)
+            if any(mir.deepstrip(x) == xs and nz != z and len(body._pred[nz]) == 1 and body.dominates(nz, d[0]) for (_, x, z, nz) in tests):
+                continue
+            good = False
+        if good:
+            return True, "non-zero constant, or x where x != 0 has been tested"
     return False, mir.fmt(o)
 
 
